@@ -22,6 +22,8 @@ func init() {
 
 func runC08(p *eng.Prog, r *eng.Report, tier string) {
 	c := &cx{p, r, tier}
+	r18HandOffComparesWholeNames(c, "C08.29")
+	r18HandlerWriterClosedOnEveryPath(c, "C08.28")
 	r17ReaderHandsOnTheDecodersError(c, "C08.27")
 	// C08.21 (= C09.17 / C10.10): no cycle in the lock-order graph: a deadlock between a
 	// writer and Close, or between the serve loop and a requester, ends every guarantee of this property
